@@ -25,7 +25,7 @@ class Check(MacroCheck):
     prop = 'C19'
     theorems = ['C19_call_rendering', 'C19_error_names_call', 'C19_error_names_path', 'C19_error_names_pattern', 'C19_pattern_rendering',
                 'diagPositions_mem', 'C19_diagnostics_positions', 'C19_debug_inputs_positions', 'C19_source_ncalls', 'C19_mirrored_traits_keep_their_names']
-    case_prefixes = ('__none__',)
+    case_prefixes = ('generic.where-clause', 'ref.m2.named-lifetime-mut.rendering')
     facts_of_interest = r'(debug |path=)'
     runtime = Runtime()
 
